@@ -5,6 +5,8 @@ from weight import WeightModel, accounting_flow
 from storemodel import StoreModel, local_uses
 
 WITNESSES = ['W5InternalsUnreachable']
+from sym import ipaths
+
 LEVEL = "other"
 EXPLANATION = ("Pairing rules on MIR paths: an admission function charges weight exactly once on every Accepted path "
                "and never on a rejected one; a put handler inserts into the store exactly once iff admission "
@@ -29,26 +31,29 @@ def run(ctx):
     ctx.floor("R05.3", "store insert sites", len(S.ops.get("insert", [])), 2)
 
     # R05.1a: admission charges once iff Accepted
+    status_fns = {n for n, g in F.fns.items() if g.rec.get("ret", "").endswith("command::CommandStatus")}
     for f in admit_fns:
         ctx.touch(f)
-        paths = enum_paths(f)
+        paths = ipaths(F, f, stop=lambda n, me=f.name: n in charge_fns or (n in status_fns and n != me), depth=3)
         ctx.analysed["paths"] += len(paths)
         bad = []
         for p in paths:
-            atoms = path_atoms(f, p)
-            n = len([1 for b, t in path_calls(f, p) if t.get("rpath") in charge_fns])
-            v = ret_variant(path_return(f, p, atoms))
+            n = len(p.calls(charge_fns))
+            v = p.ret_variant()
             if v == ("Accepted",):
                 if n != 1:
                     bad.append(("Accepted path charges %d times" % n, p))
-            elif v is not None and "Accepted" not in v:
+            elif v is not None and "Accepted" not in v and not any(x.startswith("!") for x in v):
+                if n != 0:
+                    bad.append(("rejected path charges weight", p))
+            elif v is not None and v == ("!Accepted",):
                 if n != 0:
                     bad.append(("rejected path charges weight", p))
             else:
                 bad.append(("return status not determined on path", p))
         ctx.check(not bad and paths, "R05.1", "%s|charge-iff-accepted" % f.name,
-                  "every Accepted path charges the incoming key's weight exactly once, every other path never (%d paths)" % len(paths),
-                  f.where(), "; ".join("%s via blocks %s" % (w, p) for w, p in bad[:3]))
+                  "every Accepted path charges the incoming key's weight exactly once, every other path never (%d symbolic paths)" % len(paths),
+                  f.where(), "; ".join("%s %s" % (w, q.show()) for w, q in bad[:3]))
         # the charged description is the function's parameter
         for b, t in f.calls():
             if t.get("rpath") in charge_fns:
@@ -66,30 +71,28 @@ def run(ctx):
     ctx.floor("R05.1", "put handlers (admit then insert)", len(handlers), 2)
     for f in handlers:
         ctx.touch(f)
-        paths = enum_paths(f)
+        paths = ipaths(F, f, stop=lambda n: n in admit_names or n in S.insert_fns or n in S.presence_fns or n in S.filtered_presence_fns, depth=2)
         ctx.analysed["paths"] += len(paths)
         bad = []
         for p in paths:
-            atoms = path_atoms(f, p)
-            calls = path_calls(f, p)
-            ins = [(b, t) for b, t in calls if t.get("rpath") in S.insert_fns]
-            adm = [(b, t) for b, t in calls if t.get("rpath") in admit_names]
-            v = ret_variant(path_return(f, p, atoms))
+            ins = p.calls(S.insert_fns)
+            adm = p.calls(admit_names)
+            v = p.ret_variant()
             if v == ("Accepted",):
                 if len(ins) != 1 or len(adm) != 1:
                     bad.append(("Accepted path has %d inserts / %d admissions" % (len(ins), len(adm)), p))
                     continue
-                kd = f.op_origin(adm[0][1]["args"][1])
-                g = F.fns[ins[0][1]["rpath"]]
+                kd = adm[0].args[1]
+                g = F.fns[ins[0].callee]
                 kparam, idparam = insert_params(F, g)
                 if kparam is None:
                     bad.append(("cannot map the insert function's key/id parameters", p))
                     continue
-                key = f.op_origin(ins[0][1]["args"][kparam - 1])
-                kid = f.op_origin(ins[0][1]["args"][idparam - 1])
+                key = ins[0].args[kparam - 1]
+                kid = ins[0].args[idparam - 1]
                 if not same_value(key, ("field", kd, "key")) or not same_value(kid, ("field", kd, "id")):
                     bad.append(("insert uses key=%s id=%s, admission charged %s" % (fmt(key), fmt(kid), fmt(kd)), p))
-                if p.index(adm[0][0]) > p.index(ins[0][0]):
+                if p.events.index(adm[0]) > p.events.index(ins[0]):
                     bad.append(("insert precedes admission", p))
             elif v is not None and "Accepted" not in v:
                 if ins:
@@ -97,8 +100,8 @@ def run(ctx):
             else:
                 bad.append(("return status not determined on path", p))
         ctx.check(not bad and paths, "R05.1", "%s|insert-iff-accepted" % f.name,
-                  "the handler inserts exactly once under the charged id and key iff admission accepted (%d paths)" % len(paths),
-                  f.where(), "; ".join("%s via blocks %s" % (w, p) for w, p in bad[:3]))
+                  "the handler inserts exactly once under the charged id and key iff admission accepted (%d symbolic paths)" % len(paths),
+                  f.where(), "; ".join("%s %s" % (w, q.show()) for w, q in bad[:3]))
 
     # R05.3: overwriting insert must be handled
     spawn = F.spawn_closures()
@@ -189,11 +192,33 @@ def run(ctx):
                   f.where(), "; ".join("%s via blocks %s" % (w, p) for w, p in bad[:3]))
     # the store-side remove returns the id stored in the removed entry
     for f, bb, t in S.ops.get("remove", []):
-        r = f.origin_local(0)
-        removed = f.origin_call(bb, t)
-        ids = [x for x in _subs(r) if x[0] == "field" and x[2] == "key_id" and root_calls(x) and strip_site(root_calls(x)[0]) == strip_site(removed)]
-        ctx.check(bool(ids), "R05.2", "%s|returns-removed-id" % f.name,
-                  "the store removal reports the key id of the entry it removed", f.where(bb), fmt(r)[:200])
+        if f.kind == "Closure":
+            continue
+        bad = []
+        rows = 0
+        for p in ipaths(F, f, stop=lambda n: False, depth=3):
+            L = [e for e in p.events if e.fn is f and e.bb == bb]
+            if not L:
+                continue
+            removed = L[0].res
+            v = p.variant_of(removed)
+            if v == ("Some",):
+                rows += 1
+                ids = [x for x in _subs(p.ret) if x[0] == "field" and x[2] == "key_id" and root_calls(x) and strip_site(root_calls(x)[0]) == strip_site(removed)]
+                if not ids or p.ret_variant() != ("Some",):
+                    bad.append("an entry was removed but the value returned (%s) does not carry its key id" % fmt(p.ret)[:120])
+            elif v == ("None",):
+                if p.ret_variant() != ("None",):
+                    bad.append("nothing was removed but the function does not return None")
+            else:
+                r = p.ret
+                ids = [x for x in _subs(r) if x[0] == "field" and x[2] == "key_id" and root_calls(x) and strip_site(root_calls(x)[0]) == strip_site(removed)]
+                if ids:
+                    rows += 1
+                else:
+                    bad.append("the removal's outcome is not examined and the removed id is not returned")
+        ctx.check(not bad and rows >= 1, "R05.2", "%s|returns-removed-id" % f.name,
+                  "the store removal reports the key id of the entry it removed (None when nothing was removed)", f.where(bb), "; ".join(bad[:2]))
 
     # R05.6 release of an id and by-key removal of its entry are atomic w.r.t. admission (shared with C10 R10.5 / C03 R03.4)
     import c10
